@@ -222,7 +222,7 @@ fn gen(a: &Args) {
     } else if thorough {
         40_000
     } else {
-        1_400
+        3_000
     };
     let hfs = ["dna", "protein", "dayhoff", "hp"];
     for ci in 0..ncases {
